@@ -512,3 +512,21 @@ mod tests {
         }
     }
 }
+
+#[cfg(feature = "verif-hooks")]
+pub(crate) mod verif_local {
+    use super::*;
+
+    /// A parse session whose source map holds `text` as the stdin file.
+    pub(crate) fn session_with_stdin(
+        config: &Config,
+        text: &str,
+    ) -> (ParseSess, Arc<rustc_span::SourceFile>) {
+        let psess = ParseSess::new(config).expect("parse session");
+        let sf = psess.raw_psess.source_map().new_source_file(
+            rustc_span::FileName::Custom("stdin".to_owned()),
+            text.to_owned(),
+        );
+        (psess, sf)
+    }
+}
